@@ -452,7 +452,9 @@ class Light(SystemWideDevice, DevicePositionMixin):
         elif not isinstance(key, str):
             raise AssertionError("Key should be string")
 
-        if self.stack and any(x.key == key for x in self.stack) and priority < self._get_priority_from_key(key):
+        # only a live entry of this key counts. the fade-out left behind by a removal does not
+        existing = [x for x in self.stack if x.key == key and x.dest_color is not None]
+        if existing and priority < existing[0].priority:
             if self._debug:
                 self.debug_log("Incoming priority %s is lower than an existing "
                                "stack item with the same key %s. Not adding to "
